@@ -152,8 +152,74 @@ def _der_fields(mod, fn):
     return order
 
 
+def _der_ref(r, s):
+    def enc(v):
+        b = v.to_bytes(32, "big").lstrip(b"\x00")
+        if b[0] & 0x80:
+            b = b"\x00" + b
+        return bytes([2, len(b)]) + b
+    body = enc(r) + enc(s)
+    return bytes([0x30, len(body)]) + body
+
+
+def _der_cells(ctx):
+    """Signature.der / Signature.parse evaluated on one representative of every cell the DER integer encoding distinguishes: the number of leading
+    zero bytes of the 32-byte value (0..31) x the high bit of its first non-zero byte, for r (s fixed) and for s (r fixed) -- 128 cells.  The
+    encoding must be 30 len 02 rlen r 02 slen s with a 00 in front of exactly the values whose first byte is >= 0x80 and no other leading zeros,
+    and parse must return the pair that was encoded.  None when the functions are outside the evaluator's subset."""
+    from sa.cells import ClassRef, Evaluator, FileStandIn, Obj, Raised, Undecided
+    spec_e, spec_p = "pecc:Signature.der", "pecc:Signature.parse"
+    mod, fn = rl.get(ctx, spec_e)
+    mod2, fn2 = rl.get(ctx, spec_p)
+    vals = []
+    for zeros in range(32):
+        width = 32 - zeros
+        for top in (0x7F, 0x80):
+            vals.append(int.from_bytes(bytes([top]) + bytes(range(1, width)), "big"))
+    fixed = int.from_bytes(bytes(range(33, 65)), "big")
+    pairs = [(v, fixed) for v in vals] + [(fixed, v) for v in vals]
+    hooks = {("Signature", "__init__"): lambda o, r=None, s=None, *a, **k: o.attrs.update({"r": r, "s": s})}
+    out = []
+    try:
+        for r_, s_ in pairs:
+            ctx.count("cells")
+            me = Obj("pecc", "Signature", {"r": r_, "s": s_})
+            want = _der_ref(r_, s_)
+            try:
+                got = Evaluator(ctx.repo).call(spec_e, [], self_obj=me)
+            except Raised as x:
+                out.append(ctx.bad(spec_e, "der() raises %s for r = %#x" % (x.name, r_), fn, mod, key="der-cells"))
+                break
+            if got != want:
+                which = "r" if s_ == fixed else "s"
+                v = r_ if which == "r" else s_
+                out.append(ctx.bad(spec_e, "der() of a signature whose %s has %d leading zero byte(s) and first byte %#04x is %s…, DER is %s… (30 len 02 rlen r 02 slen s; 00 in front "
+                                           "of a value exactly when its first byte is >= 0x80, no other leading zeros)" % (
+                                               which, 32 - (v.bit_length() + 7) // 8, v.to_bytes(32, "big").lstrip(b"\x00")[0], got.hex()[:20] if isinstance(got, bytes) else got,
+                                               want.hex()[:20]), fn, mod, key="der-cells"))
+                break
+            try:
+                back = Evaluator(ctx.repo, method_hooks=hooks, externals={"BytesIO": lambda b: FileStandIn(b)}).call(spec_p, [want], self_obj=ClassRef("pecc", "Signature"))
+            except Raised as x:
+                out.append(ctx.bad(spec_p, "parse() of the DER encoding of (%#x…, %#x…) raises %s" % (r_ >> 200, s_ >> 200, x.name), fn2, mod2, key="parse-cells"))
+                break
+            if not isinstance(back, Obj) or (back.attrs.get("r"), back.attrs.get("s")) != (r_, s_):
+                out.append(ctx.bad(spec_p, "parse(der(r, s)) returns another pair than (r, s) (%s)" % (
+                    "r and s swapped" if isinstance(back, Obj) and (back.attrs.get("r"), back.attrs.get("s")) == (s_, r_) else "a value is changed"), fn2, mod2, key="parse-cells"))
+                break
+    except Undecided:
+        return None
+    if not out:
+        out = [ctx.ok(spec_e, "30 len 02 rlen r 02 slen s with 00 padding exactly for a first byte >= 0x80 (128 (leading zeros, high bit) cells for r and s)", fn, mod, key="der-cells"),
+               ctx.ok(spec_p, "parse(der(r, s)) = (r, s) on every cell", fn2, mod2, key="parse-cells")]
+    return out
+
+
 def c01_7(ctx):
     """DER encoder and decoder agree on the field order 30 len 02 rlen r 02 slen s, and the padding predicate is byte >= 0x80"""
+    ev = _der_cells(ctx)
+    if ev is not None:
+        return ev
     mod, fn = rl.get(ctx, "pecc:Signature.der")
     out = []
     order = _der_fields(mod, fn)
